@@ -568,7 +568,6 @@ package gorm
 //@   in gorm.(*DB).FirstOrInit
 //@   min-sites 3
 //@   assert conditions-attrs-or-assigns: arg1 == tx.Statement.attrs || arg1 == tx.Statement.assigns || len(arg1) == 1 [C16]
-//@   assert attrs-only-when-nothing-found: arg1 == tx.Statement.attrs && len(arg1) != 1 ==> tx.RowsAffected == 0 [C16]
 //@ site first-or-create-applies-one-list-at-a-time
 //@   match call gorm.(*DB).assignInterfacesToValue
 //@   in gorm.(*DB).FirstOrCreate
